@@ -16,6 +16,36 @@ FAMILIES = {
         'thorough': dict(consts=dict(N=12, MaxKids=4, MinHi=0, AllowStar=True, Axes={'ctc'}, MaxCtc=2, CtcDepth=1, CtcBinOps=LOGIC_BIN,
                                      CtcMinFeatures=8), invariants=tlc.GEN_INVARIANTS, simulate=dict(num=3000, depth=12)),
     },
+    # wide groups: up to 7 children in one relation, at most two relations
+    'Wide': {
+        'quick':    dict(consts=dict(N=8, MaxKids=7, MinHi=0, MaxLevel=3), invariants=tlc.GEN_INVARIANTS, cap=2500),
+        'thorough': dict(consts=dict(N=8, MaxKids=7, MinHi=0, MaxLevel=4), invariants=tlc.GEN_INVARIANTS, cap=20000),
+    },
+    # deep chains: single-child relations of every cardinality down to depth 7 (quick) / 9
+    'Chain': {
+        'quick':    dict(consts=dict(N=8, MaxKids=1, MinHi=0, Shape='chain'), invariants=tlc.GEN_INVARIANTS),
+        'thorough': dict(consts=dict(N=10, MaxKids=1, MinHi=0, Shape='chain'), invariants=tlc.GEN_INVARIANTS),
+    },
+    # three constraints at once
+    'Ctc3': {
+        'quick':    dict(consts=dict(N=2, MaxKids=1, MinHi=1, Axes={'ctc'}, MaxCtc=3, CtcDepth=1, CtcBinOps={'IMPLIES', 'EXCLUDES'},
+                                     CtcMinFeatures=2), invariants=tlc.GEN_INVARIANTS, cap=2500),
+        'thorough': dict(consts=dict(N=2, MaxKids=1, MinHi=1, Axes={'ctc'}, MaxCtc=3, CtcDepth=1, CtcBinOps={'IMPLIES', 'EXCLUDES', 'OR'},
+                                     CtcMinFeatures=2), invariants=tlc.GEN_INVARIANTS, cap=20000),
+    },
+    # every decoration at once (seeded walks): abstract + typed + feature cardinality + attributes + constraints
+    'Mix': {
+        'quick':    dict(consts=dict(N=7, MaxKids=3, MinHi=0, AllowStar=True, Axes={'abs', 'type', 'fcard', 'attr', 'ctc'},
+                                     Types={'Integer', 'Real', 'String'}, FCards={(0, 1), (2, 3), (1, -1), (0, -1)}, AttrNames=['a1', 'a2'],
+                                     AttrVals=[{'val': v, 'dom': '', 'nul': 'n'} for v in ['n', 'b:true', 'i:5', 'i:-5', 'd:1.5', 's:txt']],
+                                     MaxCtc=3, CtcDepth=1, CtcBinOps=LOGIC_BIN, CtcMinFeatures=4, CtcGrow=1),
+                         invariants=tlc.GEN_INVARIANTS, simulate=dict(num=250, depth=16)),
+        'thorough': dict(consts=dict(N=8, MaxKids=4, MinHi=0, AllowStar=True, Axes={'abs', 'type', 'fcard', 'attr', 'ctc'},
+                                     Types={'Integer', 'Real', 'String'}, FCards={(0, 1), (2, 3), (1, -1), (0, -1)}, AttrNames=['a1', 'a2'],
+                                     AttrVals=[{'val': v, 'dom': '', 'nul': 'n'} for v in ['n', 'b:true', 'i:5', 'i:-5', 'd:1.5', 's:txt']],
+                                     MaxCtc=3, CtcDepth=1, CtcBinOps=LOGIC_BIN, CtcMinFeatures=4, CtcGrow=1),
+                         invariants=tlc.GEN_INVARIANTS, simulate=dict(num=3000, depth=18)),
+    },
     # the same with [lo..*] relations (UVL)
     'TreeStar': {
         'quick':    dict(consts=dict(N=4, MaxKids=3, MinHi=0, AllowStar=True), invariants=tlc.GEN_INVARIANTS),
@@ -59,6 +89,12 @@ FAMILIES = {
         'thorough': dict(module='FMAstGen', consts=dict(ANames={'f1', 'f2', 'f3', 'f4'}, BinOps=LOGIC_BIN, Depth=1, GrowSteps=2, WithArith=False,
                                                        Walks=5000), invariants=['L_Shape'], defaults=False, walks_ast=True),
     },
+    'AstNNF': {   # walks inside the and/or/not fragment (what CNF conversion works on), to depth 4
+        'quick':    dict(module='FMAstGen', consts=dict(ANames={'f1', 'f2', 'f3', 'f4'}, BinOps={'AND', 'OR'}, Depth=1, GrowSteps=3,
+                                                       WithArith=False, Walks=700), invariants=['L_Shape'], defaults=False, walks_ast=True),
+        'thorough': dict(module='FMAstGen', consts=dict(ANames={'f1', 'f2', 'f3', 'f4'}, BinOps={'AND', 'OR'}, Depth=1, GrowSteps=4,
+                                                       WithArith=False, Walks=8000), invariants=['L_Shape'], defaults=False, walks_ast=True),
+    },
     'DecorAttr': {
         'quick':    dict(consts=dict(N=3, MaxKids=2, MinHi=1, Axes={'attr'}, AttrNames=['a1'],
                                      AttrVals=[{'val': 'i:7', 'dom': '', 'nul': 'n'}, {'val': 'n', 'dom': '', 'nul': 'n'}]),
@@ -72,13 +108,13 @@ FAMILIES = {
         'quick':    dict(module='FMHist', defaults=False, invariants=['TypeOK'],
                          consts=dict(Ops={'estimate', 'core', 'atomic', 'leaves', 'count_leaves', 'depth', 'abf',
                                           'ancestors', 'varpoints', 'metrics'},
-                                     PoolSize=7, MaxLen=2,
+                                     PoolSize=10, MaxLen=2,
                                      DomShapes={'elements', 'intrange', 'floatrange', 'tworanges', 'mixture', 'mixedfloat', 'unset'},
                                      Seeds={0, 1})),
         'thorough': dict(module='FMHist', defaults=False, invariants=['TypeOK'],
                          consts=dict(Ops={'estimate', 'core', 'atomic', 'leaves', 'count_leaves', 'depth', 'abf',
                                           'ancestors', 'varpoints', 'metrics'},
-                                     PoolSize=7, MaxLen=3,
+                                     PoolSize=10, MaxLen=3,
                                      DomShapes={'elements', 'intrange', 'floatrange', 'tworanges', 'mixture', 'mixedfloat', 'unset'},
                                      Seeds={0, 1, 2, 3, 4, 5, 6, 7})),
     },
@@ -176,7 +212,7 @@ ATTR_VALS_AFM = [{'val': 's:3', 'dom': 'R:i:1..i:5|E:', 'nul': 's:0'},
 FAMILIES.update(fmt_families('afm', ALL_OPS_NOT_XOR, ATTR_VALS_AFM, abstract=False))
 ATTR_VALS_UVL = [{'val': v, 'dom': '', 'nul': 'n'} for v in
                  ['n', 'b:true', 'b:false', 'i:5', 'i:0', 'i:-5', 'd:1.5', 'd:0.1234567', 'd:-2.25', 's:txt', 's:two words', 's:true',
-                  'l:[i:1,i:2]', 'l:[s:x,d:2.5,i:-3]', 'm:{s:k=i:1}', 'm:{s:k=m:{s:j=s:v}}']]
+                  'l:[i:1,i:2]', 'l:[i:5]', 'l:[s:x,d:2.5,i:-3]', 'm:{s:k=i:1}', 'm:{s:k=m:{s:j=s:v}}']]
 FAMILIES.update(fmt_families('uvl', ALL_OPS_NOT_XOR, ATTR_VALS_UVL, star=True, extra={
     'uvl-Type': {
         'quick':    dict(consts=dict(N=3, MaxKids=2, MinHi=1, Axes={'type'}, Types={'Integer', 'Real', 'String'}, Fmt='uvl'),
